@@ -72,7 +72,7 @@ pub fn session_events(msgs: &[Value], frames: &[Value], server_events: &[Value])
         e["id"] = m.get("id").and_then(|i| i.as_i64()).map(Value::from).unwrap_or(json!(0));
         e["method"] = m["method"].clone();
         let uri = m["params"]["textDocument"]["uri"].as_str().or(m["params"]["uri"].as_str()).unwrap_or("");
-        e["uri"] = json!(uri);
+        e["uri"] = json!(norm_uri(uri));
         e["text"] = json!(t);
         if is_req {
             method_of.insert(m["id"].to_string(), m["method"].as_str().unwrap_or("").to_string());
